@@ -54,6 +54,71 @@ fn main() {
     case(&mut ctx, "F2+empty-relator", 2, &[vec![]], 3, "regress");
     case(&mut ctx, "Z2xZ2+trivial-relator", 2, &[vec![1, 1], vec![2, -2], vec![2, 2], vec![1, 2, 1, 2]], 4, "regress");
 
+    // D15: a generator killed by a length-1 relator; deductions filled entries out of
+    // row-major order and is_canonical pruned partial tables whose completion is canonical
+    case(&mut ctx, "Z4+killed-a", 2, &[vec![1], vec![2, 2, 2, 2]], 4, "regress");
+    case(&mut ctx, "Z4+killed-b", 2, &[vec![1, 1, 1, 1], vec![2]], 4, "regress");
+    case(&mut ctx, "c=1,c=a^-1b^2", 3, &[vec![3], vec![3, -1, 2, 2]], 5, "regress");
+
+    // (1a) trivial and redundant generators: every base presentation with one extra
+    //      generator inserted at every position and killed by a length-1 relator (also one
+    //      that only reduces to length 1), or identified with another generator / a word
+    {
+        let base: Vec<(&str, usize, Vec<Vec<isize>>)> = vec![
+            ("Z2", 1, vec![pw(&[1], 2)]),
+            ("Z3", 1, vec![pw(&[1], 3)]),
+            ("Z4", 1, vec![pw(&[1], 4)]),
+            ("Z6", 1, vec![pw(&[1], 6)]),
+            ("F1", 1, vec![]),
+            ("F2", 2, vec![]),
+            ("Z^2", 2, vec![comm(1, 2)]),
+            ("S3", 2, vec![pw(&[1], 2), pw(&[2], 2), pw(&[1, 2], 3)]),
+            ("Z2xZ4", 2, vec![pw(&[1], 2), pw(&[2], 4), comm(1, 2)]),
+            ("Q8", 2, vec![pw(&[1], 4), vec![1, 1, -2, -2], vec![-2, 1, 2, 1]]),
+            ("T233", 2, vec![pw(&[1], 2), pw(&[2], 3), pw(&[1, 2], 3)]),
+        ];
+        let kq = if th { 7 } else { 5 };
+        for (name, ng, rels) in &base {
+            for pos in 1..=(*ng as isize + 1) {
+                // shift letters >= pos up by one
+                let shifted: Vec<Vec<isize>> = rels
+                    .iter()
+                    .map(|w| w.iter().map(|&x| if x.abs() >= pos { x + x.signum() } else { x }).collect())
+                    .collect();
+                let other: isize = if pos == 1 { 2 } else { 1 };
+                let variants: Vec<(&str, Vec<isize>)> = vec![
+                    ("killed", vec![pos]),
+                    ("killed-inv", vec![-pos]),
+                    ("killed-unreduced", vec![other, pos, -other]),
+                    ("equal", vec![pos, -other]),
+                    ("equal-inv", vec![pos, other]),
+                    ("word", vec![pos, -other, -other]),
+                ];
+                for (vn, extra) in variants {
+                    for first in [true, false] {
+                        let mut r = shifted.clone();
+                        if first {
+                            r.insert(0, extra.clone());
+                        } else {
+                            r.push(extra.clone());
+                        }
+                        let kmax = if *ng == 2 && rels.is_empty() { kq.min(4) } else { kq };
+                        let nm = format!("{name}+gen{pos}-{vn}");
+                        for k in 1..=kmax {
+                            case(&mut ctx, &nm, ng + 1, &r, k, "redundant-generator");
+                        }
+                    }
+                }
+            }
+        }
+        // two killed generators, and the lead's example
+        for k in 1..=kq {
+            case(&mut ctx, "Z4+two-killed", 3, &[vec![1], vec![2, 2, 2, 2], vec![3]], k, "redundant-generator");
+            case(&mut ctx, "Z4+two-killed'", 3, &[vec![2], vec![3], vec![1, 1, 1, 1]], k, "redundant-generator");
+            case(&mut ctx, "c=1,c=a^-1b^2", 3, &[vec![3], vec![3, -1, 2, 2]], k, "redundant-generator");
+        }
+    }
+
     // (1) infinite groups: (name, gens, relators, kmax quick, kmax thorough)
     let mut inf: Vec<(&str, usize, Vec<Vec<isize>>, usize, usize)> = vec![
         ("F0", 0, vec![], 2, 3),
